@@ -56,6 +56,9 @@ CBMC_FLAGS = [
 ]
 
 
+DEFAULT_LOOPS = {r"std::vec::Vec::<u8>::extend_with": 72}
+
+
 def log(*a):
     print(*a, file=sys.stderr, flush=True)
 
@@ -233,6 +236,22 @@ def run_harness(h, opts):
         res["restricted_to"] = opts["only_desc"]
         for x in sel:
             cmd += ["--property", x]
+    # loops of std that a harmless refactoring of the crate can pull in with a concrete trip count above the harness's
+    # tight global bound (Vec::<u8>::resize -> extend_with): give them their own, larger bound. Unwinding assertions stay on.
+    loops = dict(DEFAULT_LOOPS)
+    loops.update(opts.get("loops") or {})
+    if loops and not listing:
+        rc, listing = sh(["goto-instrument", "--list-goto-functions", out], timeout=120)
+    if loops:
+        rc_l, loop_list = sh(["goto-instrument", "--show-loops", out], timeout=120)
+        known = set(re.findall(r"Loop (\S+):", loop_list))
+        for rx, n in loops.items():
+            for line in listing.splitlines():
+                mm = re.match(r"^(.*?) /\* (_R\S+?)(, body not available)? \*/\s*$", line.strip())
+                if mm and not mm.group(3) and re.fullmatch(rx, mm.group(1)):
+                    for lid in sorted(known):
+                        if lid.startswith(mm.group(2) + "."):
+                            unwindset.append("%s:%d" % (lid, n))
     if unwindset:
         cmd += ["--unwindset", ",".join(unwindset)]
         res["unwindset"] = unwindset
